@@ -310,7 +310,7 @@ def run_case(p):
         cap = wire.Capture(responder)
 
         def run_all(status, content, ctype, raise_flag):
-            current.update(status=status, content=content, headers=({"content-type": ctype} if ctype else {}) | {"x-extra": "v1"})
+            current.update(status=status, content=content, headers=[("X-Extra", "v1"), ("Set-Cookie", "a=1"), ("Set-Cookie", "b=2")] + ([("Content-Type", ctype)] if ctype else []))
             out = {}
             for variant in wire.VARIANTS:
                 r = wire.call(mod, variant, lambda: wire.make_client(sb, cap, raise_on_unexpected_status=raise_flag), cap, {})  # noqa: B023
@@ -339,8 +339,14 @@ def run_case(p):
                                 viol.append({"oracle": "status", "site": "-", "key": k, "detail": f"status_code {val.status_code!r} != {st}"})
                             if val.content != content:
                                 viol.append({"oracle": "content", "site": "-", "key": k, "detail": f"content {val.content!r} != {content!r}"})
-                            if val.headers.get("x-extra") != "v1":
-                                viol.append({"oracle": "headers", "site": "-", "key": k, "detail": f"headers {dict(val.headers)!r}"})
+                            h = val.headers
+                            try:      # the raw headers: found by the name the server used and by any other casing, repeated fields kept apart
+                                ok_h = h.get("x-extra") == "v1" and h.get("X-Extra") == "v1" and h["X-EXTRA"] == "v1" and \
+                                    sorted(h.get_list("set-cookie")) == ["a=1", "b=2"]
+                            except Exception:  # noqa: BLE001
+                                ok_h = False
+                            if not ok_h:
+                                viol.append({"oracle": "headers", "site": "-", "key": f"{key}/headers", "detail": f"headers are not the raw reply headers: {type(h).__name__} {dict(h)!r}"})
                             parsed = val.parsed
                         else:
                             parsed = val
